@@ -35,6 +35,11 @@ pub struct Layout {
     pub trailing_free_minis: usize,
     /// byte used to fill free sectors / free mini sectors (readers must not care)
     pub free_fill: u8,
+    /// header fields a conforming writer may set differently: 0 = minor version 0x3E and
+    /// transaction signature 0 (what the library writes); 1 = 0x3B / 7; 2 = 0x21 / 0xFFFFFFFF;
+    /// 3 = 0x00 / 1 (MS-CFB 2.2: minor version SHOULD be 0x3E; the signature MAY be any number)
+    #[serde(default)]
+    pub header_variant: u8,
 }
 
 pub fn sector_len(version: u16) -> usize {
@@ -480,7 +485,13 @@ fn synth_inner(root: &Node, l: &Layout, plan_only: bool) -> Result<Synth, String
     }
     // --- header
     b[0..8].copy_from_slice(&MAGIC);
-    put16(&mut b, 24, 0x3E);
+    let (minor, txsig): (u16, u32) = match l.header_variant {
+        1 => (0x3B, 7),
+        2 => (0x21, 0xFFFF_FFFF),
+        3 => (0x00, 1),
+        _ => (0x3E, 0),
+    };
+    put16(&mut b, 24, minor);
     put16(&mut b, 26, l.version);
     put16(&mut b, 28, 0xFFFE);
     put16(&mut b, 30, if l.version == 3 { 9 } else { 12 });
@@ -488,7 +499,7 @@ fn synth_inner(root: &Node, l: &Layout, plan_only: bool) -> Result<Synth, String
     put32(&mut b, 40, if l.version == 3 { 0 } else { dir_sectors as u32 });
     put32(&mut b, 44, nf as u32);
     put32(&mut b, 48, dir_ids[0]);
-    put32(&mut b, 52, 0);
+    put32(&mut b, 52, txsig);
     put32(&mut b, 56, 4096);
     put32(&mut b, 60, if minifat_sectors > 0 { minifat_ids[0] } else { ENDOFCHAIN });
     put32(&mut b, 64, minifat_sectors as u32);
